@@ -679,6 +679,14 @@ def fixed_overlap(N):
     # the UTF-8 bytes of é are the code points of Ã ©: r"é" vs r"[Ã-Ä][©-ª]" have no common string
     two("G006", "alias", chr_(1), cat(set_([2]), set_([3])), ["byte_alias"])
     two("G007", "exact4", chr_(1), set_([1, 2]), ["nonascii_literal_vs_class"])
+    # an overlap that a higher-precedence terminal shadows on every common string:
+    # match { "b" => "KW1" } else { _ } with r"b" and r"[abc]{1,2}" used in the grammar
+    out.append({"id": "G008", "aname": "ascii", "alpha": A["ascii"][0], "N": N, "style": "raw", "group": "(?:",
+                "match": [[{"k": "ent", "e": "m1", "lit": True, "re": lit(2), "skip": False, "to": "T3"}], [{"k": "any"}]],
+                "uses": [{"e": "u1", "lit": False, "re": chr_(2), "name": "T1"},
+                         {"e": "u2", "lit": False, "re": rep(set_([1, 2, 3]), 1, 2), "name": "T2"}],
+                "terms": {"T1": {"as": "self"}, "T2": {"as": "self"}, "T3": {"as": "quoted", "text": "KW1"}},
+                "tags": ["shadowed_overlap", "overlap_set"]})
     return out
 
 
@@ -766,7 +774,7 @@ def _write_cases(wd, name, cases):
     return p
 
 
-def run_overlap(cases, workers=6, timeout=1500):
+def run_overlap(cases, workers=6, timeout=3600):
     """-> {id: {supported, wellformed, pairs: n, overlaps: [{i, j, ei, ej, path}], pats: [...]}}, states, transitions"""
     wd = mkscratch("mcoverlap")
     try:
@@ -790,7 +798,7 @@ def run_overlap(cases, workers=6, timeout=1500):
         rmtree(wd)
 
 
-def run_clash(cases, workers=4, timeout=1500):
+def run_clash(cases, workers=4, timeout=3600):
     """-> {id: [clash records]} (strings on which two patterns of maximal equal precedence both match)"""
     wd = mkscratch("mcclash")
     try:
@@ -807,7 +815,7 @@ def run_clash(cases, workers=4, timeout=1500):
         rmtree(wd)
 
 
-def run_mclex(cases, asis=False, workers=6, timeout=1500):
+def run_mclex(cases, asis=False, workers=6, timeout=5400):
     """-> {(id, w tuple): {toks, end, at, zname}}, pats {id: [...]}, states, transitions, violations"""
     wd = mkscratch("mclex")
     try:
@@ -826,7 +834,7 @@ def run_mclex(cases, asis=False, workers=6, timeout=1500):
         rmtree(wd)
 
 
-def run_live(cases, asis, workers=2, timeout=900):
+def run_live(cases, asis, workers=2, timeout=3600):
     """liveness: every run of the tokenizer machine reaches a verdict (Terminates under weak fairness).
     -> (holds, states).  vlib.run_tlc does not know this TLC's wording of a temporal violation, hence the except."""
     wd = mkscratch("mclive")
@@ -846,7 +854,7 @@ def run_live(cases, asis, workers=2, timeout=900):
         rmtree(wd)
 
 
-def run_tab(cases, workers=6, timeout=1500):
+def run_tab(cases, workers=6, timeout=5400):
     """-> {(id, e): set of w tuples matched}, states, transitions"""
     wd = mkscratch("mctab")
     try:
